@@ -12,7 +12,7 @@ use crate::exch::{ExchCfg, Gate, Menu, ServerMsg};
 use crate::exch_run::{replay_exchange, run_exchanges};
 use crate::refmodel::chunked::{encode, ChunkSpec};
 
-pub const RULE: &str = "codings by construction: chunks of size {1,2,3} x payload pattern {letters, starts with CRLF, ends with CR, starts with LF} x size spelling {plain, leading zero, extension}, last-chunk spelling {0,000,0;x}, 0..2 trailers, size lines of exactly 20 and 19 bytes (the decoder's documented limit), a 130-byte trailer line, trailer field names that look like a status line / last chunk / framing header (HTTP2-Settings, HTTP, 0, Content-Length, Transfer-Encoding), obs-text in quoted chunk-extension values and trailer values, the coding announced by Transfer-Encoding spellings {chunked, Chunked, 'gzip, chunked', 'chunked,', 'gzip,chunked, ,', ', chunked', 'chunked ,TAB'}, also as the answer to an HTTP/1.0 request and under statuses 203 / 205 / 404 (incl. a body of the last chunk only), always followed by 'HTTP/1.1 2' which must stay unconsumed; quick: all 1-chunk codings and a pairwise-reduced family of 2-chunk codings, thorough: all codings of <=2 chunks and a reduced family of 3-chunk codings; plus single chunks of size 15,16,255,256,4095,4096 in lower/upper/mixed-case hex with and without leading zero. Per coding and boundary-stop {off,on} the COMPLETE graph over (dechunker state, consumed, arrived): 1-byte arrivals, read with buffers {0,1,2,3,4,large} at every window (large chunks: arrival cuts at every size-line/tail position and data end -1/0/+1/+2, buffers {0,size-1,size,size+1,large} and {1,4} up to 256). plus the same codings (up to 400 bytes) through Call::<RecvBody>::read under boundary stop {off,on} x arrivals {1, 5, all} x buffers {1,3,64}, with is_on_chunk_boundary() checked after every read (on the flow as well); plus interleaving: all 25 ordered pairs of five chunked responses decoded alternately on one thread (first i steps of one, j steps of the other, then each to its end, for every i, j) with 7-byte arrivals and 3-byte output buffers. distinct = distinct (coding, stop mode, final observation)";
+pub const RULE: &str = "codings by construction: chunks of size {1,2,3} x payload pattern {letters, starts with CRLF, ends with CR, starts with LF} x size spelling {plain, leading zero, extension}, last-chunk spelling {0,000,0;x}, 0..2 trailers, size lines of exactly 20 and 19 bytes (the decoder's documented limit), a 130-byte trailer line, trailer field names that look like a status line / last chunk / framing header (HTTP2-Settings, HTTP, 0, Content-Length, Transfer-Encoding), obs-text in quoted chunk-extension values and trailer values, the coding announced by Transfer-Encoding spellings {chunked, Chunked, 'gzip, chunked', 'chunked,', 'gzip,chunked, ,', ', chunked', 'chunked ,TAB'}, also as the answer to an HTTP/1.0 request, next to Connection: close / keep-alive + Content-Length fields, and under statuses 203 / 205 / 404 (incl. a body of the last chunk only), always followed by 'HTTP/1.1 2' which must stay unconsumed; size / last-chunk / trailer lines of every length 1..=17 with the stream ending right after the body, 1 byte later or 8 bytes later; quick: all 1-chunk codings and a pairwise-reduced family of 2-chunk codings, thorough: all codings of <=2 chunks and a reduced family of 3-chunk codings; plus single chunks of size 15,16,255,256,4095,4096 in lower/upper/mixed-case hex with and without leading zero. Per coding and boundary-stop {off,on} the COMPLETE graph over (dechunker state, consumed, arrived): 1-byte arrivals, read with buffers {0,1,2,3,4,large} at every window (large chunks: arrival cuts at every size-line/tail position and data end -1/0/+1/+2, buffers {0,size-1,size,size+1,large} and {1,4} up to 256). plus the same codings (up to 400 bytes) through Call::<RecvBody>::read under boundary stop {off,on} x arrivals {1, 5, all} x buffers {1,3,64} (every other run after an interim 103 was handed out by the same object), with is_on_chunk_boundary() checked after every read (on the flow as well); plus interleaving: all 25 ordered pairs of five chunked responses decoded alternately on one thread (first i steps of one, j steps of the other, then each to its end, for every i, j) with 7-byte arrivals and 3-byte output buffers. distinct = distinct (coding, stop mode, final observation)";
 
 const PATTERNS: [&[u8]; 4] = [b"abc", b"\r\nx", b"xy\r", b"\nzz"];
 
@@ -47,12 +47,26 @@ fn mk_coding_te(c: crate::refmodel::chunked::Coding, first_size: usize, stop: bo
 
 /// `req_ver`: the version of the REQUEST (the response is HTTP/1.1 and chunked whatever the request said).
 fn mk_coding_req(c: crate::refmodel::chunked::Coding, first_size: usize, stop: bool, menu_kind: u8, te: &str, req_ver: &str) -> Arc<ExchCfg> {
+    mk_coding_tail(c, first_size, stop, menu_kind, te, req_ver, b"HTTP/1.1 2")
+}
+
+/// `tail`: the bytes that follow the coding on the connection (they must stay unconsumed; with an empty tail the
+/// stream ends with the body, so a decoder that waits for more than the final CRLF never finishes).
+fn mk_coding_tail(c: crate::refmodel::chunked::Coding, first_size: usize, stop: bool, menu_kind: u8, te: &str, req_ver: &str, tail: &[u8]) -> Arc<ExchCfg> {
+    mk_coding_fields(c, first_size, stop, menu_kind, te, req_ver, tail, &[])
+}
+
+/// `extra`: further response header fields (they are no part of the coding and must not matter to the decoder).
+#[allow(clippy::too_many_arguments)]
+fn mk_coding_fields(c: crate::refmodel::chunked::Coding, first_size: usize, stop: bool, menu_kind: u8, te: &str, req_ver: &str, tail: &[u8], extra: &[(&str, &str)]) -> Arc<ExchCfg> {
     // (the status is no part of the coding: 205 and 404 answers are chunked like any other; encoded in req_ver as "1.1/205")
     let (req_ver, status) = match req_ver.split_once('/') {
         Some((v, st)) => (v, st.parse::<u16>().unwrap_or(200)),
         None => (req_ver, 200),
     };
-    let msg = RespMsg { version: "1.1".into(), status, reason: "OK".into(), fields: vec![("Transfer-Encoding".into(), te.as_bytes().to_vec())], body: RespBody::Chunked { coding: c.bytes.clone(), payload: c.payload.clone(), ranges: c.data_ranges.clone() } };
+    let mut fields: Vec<(String, Vec<u8>)> = vec![("Transfer-Encoding".into(), te.as_bytes().to_vec())];
+    fields.extend(extra.iter().map(|(k, v)| (k.to_string(), v.as_bytes().to_vec())));
+    let msg = RespMsg { version: "1.1".into(), status, reason: "OK".into(), fields, body: RespBody::Chunked { coding: c.bytes.clone(), payload: c.payload.clone(), ranges: c.data_ranges.clone() } };
     let head_len = msg.head_bytes().len();
     let mut menu = Menu::default_large();
     menu.stop_boundary = stop;
@@ -77,7 +91,7 @@ fn mk_coding_req(c: crate::refmodel::chunked::Coding, first_size: usize, stop: b
         }
     }
     let srv = vec![ServerMsg { msg, gate: Gate::AfterBody }];
-    let mut cfg = ExchCfg::new("C07", ReqCfg::new("GET", req_ver, "http://a.test/"), vec![], srv, b"HTTP/1.1 2".to_vec(), menu).expect("cfg");
+    let mut cfg = ExchCfg::new("C07", ReqCfg::new("GET", req_ver, "http://a.test/"), vec![], srv, tail.to_vec(), menu).expect("cfg");
     cfg.start_at = Some("RecvBody");
     cfg.scope = scope;
     Arc::new(cfg)
@@ -166,6 +180,27 @@ pub fn build(tier: Tier) -> Vec<Arc<ExchCfg>> {
         for trailers in [tv(&[b"HTTP2-Settings: x"]), tv(&[b"HTTP: y", b"T1: v"]), tv(&[b"0: z"]), tv(&[b"Content-Length: 5", b"Transfer-Encoding: chunked"]), tv(&[b"T: caf\xe9 \xff"])] {
             out.push(mk_coding(crate::refmodel::chunked::encode_bytes(&[(b"3".to_vec(), b"abc".to_vec())], b"0", &trailers), 3, stop, 0));
         }
+        // line lengths of every residue modulo 16 (size line, last-chunk line, trailer line of L bytes), with the stream
+        // ending right after the final CRLF, one byte later, or 8 bytes later: a scanner that works a word at a time
+        // shows its slips only where a line end falls next to a word boundary and nothing more arrives
+        for l in 1..=17usize {
+            let size_txt = format!("{:0>w$}", "3", w = l).into_bytes();
+            let last = "0".repeat(l).into_bytes();
+            let trailers: Vec<Vec<u8>> = if l >= 2 { vec![format!("A:{}", "b".repeat(l - 2)).into_bytes()] } else { vec![] };
+            for tail in [&b""[..], &b"H"[..], &b"HTTP/1.1"[..]] {
+                out.push(mk_coding_tail(crate::refmodel::chunked::encode_bytes(&[(size_txt.clone(), b"abc".to_vec())], b"0", &[]), 3, stop, 0, "chunked", "1.1", tail));
+                out.push(mk_coding_tail(crate::refmodel::chunked::encode_bytes(&[(b"3".to_vec(), b"abc".to_vec())], &last, &[]), 3, stop, 0, "chunked", "1.1", tail));
+                out.push(mk_coding_tail(crate::refmodel::chunked::encode_bytes(&[], &last, &trailers), 0, stop, 0, "chunked", "1.1", tail));
+                if l >= 2 {
+                    out.push(mk_coding_tail(crate::refmodel::chunked::encode_bytes(&[(b"3".to_vec(), b"abc".to_vec())], b"0", &trailers), 3, stop, 0, "chunked", "1.1", tail));
+                }
+            }
+        }
+        // response fields that are no part of the coding: the connection will be closed / kept after this response
+        for extra in [&[("Connection", "close")][..], &[("Connection", "keep-alive"), ("Content-Length", "3")][..]] {
+            out.push(mk_coding_fields(crate::refmodel::chunked::encode_bytes(&[(b"3".to_vec(), b"abc".to_vec()), (b"2".to_vec(), b"de".to_vec())], b"0", &[b"T1: v".to_vec()]), 3, stop, 0, "chunked", "1.1", b"", extra));
+            out.push(mk_coding_fields(crate::refmodel::chunked::encode_bytes(&[(b"1".to_vec(), b"a".to_vec())], b"0", &[]), 1, stop, 0, "chunked", "1.1", b"HTTP/1.1 2", extra));
+        }
         // spellings of the header that announces the coding (empty list elements are ignored, RFC 9110 5.6.1)
         for te in ["Chunked", "gzip, chunked", "chunked,", "gzip,chunked, ,", ", chunked", "chunked ,\t"] {
             out.push(mk_coding_te(crate::refmodel::chunked::encode_bytes(&[(b"3".to_vec(), b"abc".to_vec())], b"0", &[b"T1: v".to_vec()]), 3, stop, 0, te));
@@ -221,9 +256,18 @@ fn call_level(cfgs: &[Arc<ExchCfg>], rep: &mut Report) {
                 for arr in [1usize, 5, usize::MAX] {
                     for buf in [1usize, 3, 64] {
                         runs += 1;
+                        // every other run: an interim 103 is handed out by the same object before the final head
+                        let prior_103 = runs % 2 == 0;
                         let r = crate::engine::guarded(|| -> Option<(String, String)> {
                             let head = format!("HTTP/1.1 200 OK\r\nTransfer-Encoding: {}\r\n\r\n", te);
                             let mut c = crate::props::flows::recv_response_call("GET");
+                            if prior_103 {
+                                let early = b"HTTP/1.1 103 Early Hints\r\nLink: </s.css>; rel=preload\r\n\r\n";
+                                match c.try_response(early) {
+                                    Ok(Some((n, r))) if n == early.len() && r.status().as_u16() == 103 => {}
+                                    o => return Some(("C07:harness:call-level".into(), format!("interim 103 not handed out: {:?}", o.map(|x| x.map(|y| y.0))))),
+                                }
+                            }
                             match c.try_response(head.as_bytes()) {
                                 Ok(Some((n, _))) if n == head.len() => {}
                                 o => return Some(("C07:harness:call-level".into(), format!("head not accepted: {:?}", o.map(|x| x.map(|y| y.0))))),
@@ -283,7 +327,7 @@ fn call_level(cfgs: &[Arc<ExchCfg>], rep: &mut Report) {
                             Err(p) => Some((format!("C07:call:panic:{}", crate::engine::panic_site(&p)), p)),
                         };
                         if let Some((k, w)) = fail {
-                            return (runs, Some((k, format!("{} [single-call API, coding {:?}, boundary stop {}, arrivals of {} bytes, {}-byte output buffer]", w, show(&coding[..coding.len().min(60)]), stop, if arr == usize::MAX { "all".to_string() } else { arr.to_string() }, buf))));
+                            return (runs, Some((k, format!("{} [single-call API, coding {:?}, boundary stop {}, arrivals of {} bytes, {}-byte output buffer{}]", w, show(&coding[..coding.len().min(60)]), stop, if arr == usize::MAX { "all".to_string() } else { arr.to_string() }, buf, if prior_103 { ", an interim 103 handed out first" } else { "" }))));
                         }
                     }
                 }
